@@ -27,7 +27,13 @@ TRUSTED = ['label / value encoding harness/locate_common.py and harness/props/C1
            'for the pandas mixin the recorded answers of Series.reindex and of the casting assignment are the model\'s oracles',
            'pandas get_loc / __contains__ of the old span: recorded per case; for period_range / fixed-frequency date_range old spans ALSO compared with the '
            'executable index model LocateIndex.reg_get_loc / reg_contains, for which old_span_ok is proved']
-ASSUMPTIONS = ['the conversion of a fill value to a dtype (bool()/int()/str() + np.full(n, value, dtype)) is CPython/NumPy behaviour: tabulated in '
+ASSUMPTIONS = ['clauses with no theorem, checked by the direct oracle only: the result is of the same class; the original (series, span, variable names, public '
+               'attributes) is unchanged - also after a call that raised - and does not follow mutations of the result',
+               'documented exclusion: a NumPy-array OLD span with a repeated label raises KeyError when that label is requested (Props: C12_dup_arr_old_span_KeyError); '
+               'for list / tuple / range old spans with repeated labels the oracle checks every label that is not itself repeated (first occurrence is what the model proves)',
+               'K is stricter than the property on the exception CLASS of an unconvertible fill value and on fill methods of the pandas mixin (recorded Series.reindex '
+               'answers); the direct oracle checks ffill / bfill on increasing integer spans for float variables and is silent on limit / tolerance / nearest',
+               'the conversion of a fill value to a dtype (bool()/int()/str() + np.full(n, value, dtype)) is CPython/NumPy behaviour: tabulated in '
                'Reindex.cast_tbl on the generator\'s palette (incl. NumPy not converting the value when n = 0) and exercised entry by entry',
                'pandas get_loc / __contains__ answers are recorded per case and handed to the model as its oracle tables',
                'the original object is an immutable value in the functional model: that it is unchanged is observed on the implementation (snapshot '
@@ -629,6 +635,29 @@ def _expected_fill(dt, pv, given):
     return 'skip'
 
 
+def _method_fill(case, name, dt, p, old_labs, oldd):
+    """Expected cell of a NEW period p for a float variable under ffill / bfill (no limit, no tolerance) when the old labels are
+    increasing integers; None where this direct reference does not apply."""
+    pd_args = case.get('pandas', {})
+    if dt != 'float64' or 'limit' in pd_args or 'tolerance' in pd_args or p[0] != 'n':
+        return None
+    if not all(l[0] == 'n' for l in old_labs) or [l[1] for l in old_labs] != sorted(set(l[1] for l in old_labs)):
+        return None
+    as_list = lambda x: [] if x is None else ([x] if isinstance(x, str) else list(x))
+    method = pd_args.get('method')
+    for key, m in (('backfill_', 'bfill'), ('bfill_', 'bfill'), ('pad_', 'ffill'), ('ffill_', 'ffill'), ('nearest_', 'nearest')):
+        if name in as_list(pd_args.get(key)):
+            method = m
+    method = {'pad': 'ffill', 'backfill': 'bfill'}.get(method, method)
+    if method == 'ffill':
+        prev = [i for i, l in enumerate(old_labs) if l[1] < p[1]]
+        return oldd[prev[-1]] if prev else ['f', 'nan']
+    if method == 'bfill':
+        nxt = [i for i, l in enumerate(old_labs) if l[1] > p[1]]
+        return oldd[nxt[0]] if nxt else ['f', 'nan']
+    return None
+
+
 def _same_cell(a, b):
     if a[0] == 'o' and b[0] == 'o':
         return a[2:] == b[2:]          # same value; identity is the business of the sharing scan
@@ -728,7 +757,11 @@ def oracle(case, obs):
                 elif cls in PANDAS and name not in fills and case.get('fill_value') is None and not case.get('pandas'):
                     fails.append({'sig': SIG_PANDAS, 'what': '%s (%s) new period filled with %s, expected %s' % (name, dt, newd[i], fill)})
                 elif cls in PANDAS and case.get('pandas'):
-                    pass          # a fill method was requested: new periods take propagated values, outside the statement
+                    # a fill method was requested (outside the property's statement, which speaks of fill VALUES): for ffill / bfill
+                    # without limit / tolerance on an increasing integer old span the propagated value is checked directly
+                    exp = _method_fill(case, name, dt, p, old_labs, oldd)
+                    if exp is not None and not _same_cell(newd[i], exp):
+                        bad(site, 'wrong-method-fill', '%s[%d] (new period %s under a fill method) is %s, expected %s' % (name, i, p, newd[i], exp))
                 else:
                     bad(site, 'wrong-fill', '%s[%d] (new period) is %s, expected fill %s' % (name, i, newd[i], fill))
     if obs['attrs'] != obs['old_attrs']:
@@ -1069,6 +1102,8 @@ def gen(rng, tier):
                     c['pandas'] = {'method': rng.choice(['ffill', 'bfill', 'nearest'])}
                 elif r == 4 and fname in ('range', 'pdindex-int', 'nparr-int'):
                     c['pandas'] = {rng.choice(['ffill_', 'pad_', 'bfill_', 'backfill_', 'nearest_']): rng.choice(['X', ['X', 'Y']])}
+                elif r == 7 and fname in ('range', 'pdindex-int', 'nparr-int'):
+                    c['pandas'] = [{'method': 'ffill', 'limit': 1}, {'method': 'nearest', 'tolerance': 1}, {'method': 'bfill', 'limit': 2, 'copy': False}][pk % 3]
                 elif r == 5:
                     c['fills'] = [['Z', ['i', 1]]]
                     c['strict'] = rng.choice([None, True, False])
